@@ -280,8 +280,8 @@ struct SyncModel {
   // it (used only to aim ADVDL / DRAIN at the interesting instants). dueMax: the liveness bound (rule 5) - the
   // statement promises "a bounded time" and names no schedule, so the bound is one full largest period after the
   // event that started the wait, whichever of the admissible schedules the machine follows.
-  // dueMax is measured in POLLED time (`polled`): simulated milliseconds that went by in poll gaps of at most
-  // 64,536 ms, the premise under which the clock itself keeps time (C13). A machine that times its waits on its own
+  // dueMax is measured in POLLED time (`polled`): simulated milliseconds that went by between loop() calls at most
+  // 64,536 ms apart, the premise under which the clock itself keeps time (C13). A machine that times its waits on its own
   // clock's seconds is as bounded as one that uses millis(), but no machine can be held to a deadline that passed
   // while nobody called it.
   int64_t dueMin = INT64_MIN / 4, dueExpect = 0, dueMax = 0, start = 0, polled = 0;
@@ -355,6 +355,7 @@ class ClockDevice {
   void setMillis() { fm.millis(opts.wrap32 ? (sim_ulong_t)(uint32_t)(boot + t) : (sim_ulong_t)(boot + t)); }
   acetime_t probe(int opIndex, Verdict& v, const char* where);
   void doLoop(int opIndex, Verdict& v, Coverage& cov);
+  void noteLoopGap();
   void doSet(acetime_t val, int opIndex, Verdict& v, Coverage& cov, const char* kind);
   void advance(int64_t d, Coverage& cov);
 
@@ -377,6 +378,8 @@ class ClockDevice {
   SyncModel sync;   // C14
   SyncModel syncBeforeTimeout;      // snapshot taken when the model decides "timed out" (see doLoop)
   bool timeoutSnapshotValid = false;
+  int64_t timeoutSnapshotT = -1;    // the loop() call at which the model declared the time-out
+  int64_t lastLoopT = -1;           // previous loop() call (polled-time accounting is LOOP to LOOP)
   int64_t prevLoopT = -1;
   bool built = false;
   int64_t carryAtSet = 0;
